@@ -90,6 +90,13 @@ pub fn expand(modules: &mut [(std::path::PathBuf, Vec<Declaration>)])
 		let (_, declarations) = &modules[offset_of_includee];
 		let imported_declarations: Vec<Declaration> =
 			declarations.iter().filter_map(|x| export(x)).collect();
+		#[cfg(feature = "penne_verif")]
+		crate::verif_trace::emit(format!(
+			"{{\"ev\":\"splice\",\"includer\":{},\"includee\":{},\"count\":{}}}",
+			offset_of_includer,
+			offset_of_includee,
+			imported_declarations.len(),
+		));
 		let (_, declarations) = &mut modules[offset_of_includer];
 		declarations.splice(0..0, imported_declarations);
 	}
